@@ -182,6 +182,12 @@ def frame_cases(prop, seed=0):
         out.append(_g("toqito.perms", "perfect_matchings", [dict(kind="array", v=[0, 1, 2, 3, 4, 5])], "array"))
         out.append(_g("toqito.perms", "perfect_matchings", [dict(kind="const", v=[3, 4, 5, 6])], "list"))
     if prop == "C19":
+        K = lambda v: dict(kind="const", v=v)  # noqa: E731
+        # seeded generators: same seed -> same object, also after the caller has edited an earlier result in place (no result may be shared)
+        for fn, a, kw in (("random_unitary", [3], {}), ("random_unitary", [3, True], {}), ("random_density_matrix", [3], {}), ("random_density_matrix", [3, False, None, "bures"], {}),
+                          ("random_state_vector", [3], {}), ("random_state_vector", [[2, 2], False, 1], {}), ("random_povm", [2, 2, 2], {}), ("random_orthonormal_basis", [3], {}),
+                          ("random_ginibre", [2, 3], {}), ("random_psd_operator", [3], {}), ("random_circulant_gram_matrix", [3], {}), ("random_states", [3, 2], {})):
+            out.append(_g("toqito.rand", fn, [K(x) for x in a], "seeded-%d" % len(a), kwargs=dict(seed=K(7)), tol=0.0))
         st = dict(kind="kets", d=3, n=3, seed=s)
         pr = dict(kind="probs", n=3, seed=s)
         out.append(_g("toqito.measurements", "pretty_good_measurement", [st, pr], "kets", tol=1e-8))
